@@ -18,7 +18,7 @@ enum OpCode : uint8_t {
   SPIN,        // n harness scheduling points (stay in user code)
   GUARD_NEW,   // a: 0 = CreateEpochGuard, 1 = GetProtectedEpochs
   GUARD_MOVE,  // a: 0 = move construction, 1 = move assignment (round trip, still one owner)
-  GUARD_END,   // a: 0 = move-assign an empty guard, 1 = destructor
+  GUARD_END,   // a: 0 = move-assign an empty temporary, 1 = destructor, 2 = move-assign from a named empty guard that lives on
   CHECK_LIST,  // list obtained from GetProtectedEpochs must still equal its snapshot
   READ_CUR,    // GetCurrentEpoch
   READ_MIN,    // GetMinEpoch
